@@ -113,6 +113,11 @@ func (r *Reconciler) Reconcile(ctx context.Context, request reconcile.Request) (
 	// now apply the strategy depending on the ReplicaSet state
 	strategyResult, err := r.applyStrategy(reqLogger, daemonsetInstance, now, strategyParams)
 	newStatus := strategyResult.NewStatus
+	if newStatus == nil {
+		// The strategy could not be evaluated (for instance a rolling-update parameter that is not a valid
+		// percentage): keep the current status so that the error below can still be recorded on it.
+		newStatus = strategyParams.NewStatus.DeepCopy()
+	}
 	result := strategyResult.Result
 
 	// for the reste of the actions we will try to execute as many actions as we can so we will store possible errors in a list
